@@ -225,20 +225,43 @@ class FakeTransport(asyncio.DatagramTransport):
         self.net = net
         self.closed = False
         self.sent_after_close = 0
+        # fault injection: `eagain(data) -> bool` says that the kernel's send buffer is full for this datagram (sendto
+        # raises BlockingIOError inside asyncio): the transport then keeps it in its own write buffer and hands it over
+        # when the socket is writable again (next loop iteration).  close() still delivers what is buffered before the
+        # socket goes away; abort() throws it away - exactly the difference between the two in asyncio.
+        self.eagain: Optional[Callable[[bytes], bool]] = None
+        self._buffer: List[Tuple[bytes, Any]] = []
+        self.dropped: List[bytes] = []
 
     def sendto(self, data: bytes, addr: Any = None) -> None:
         if self.closed:
             self.sent_after_close += 1
             return
-        self.net.sent(self, bytes(data), addr)
+        data = bytes(data)
+        if self._buffer or (self.eagain is not None and self.eagain(data)):
+            if not self._buffer:
+                self.loop.call_soon(self._flush)
+            self._buffer.append((data, addr))
+            return
+        self.net.sent(self, data, addr)
+
+    def _flush(self) -> None:
+        buf, self._buffer = self._buffer, []
+        for data, addr in buf:
+            self.net.sent(self, data, addr)
 
     def close(self) -> None:
         if not self.closed:
+            self._flush()
             self.closed = True
             self.loop.call_soon(self._call_connection_lost, None)  # as asyncio's selector datagram transport does
 
     def abort(self) -> None:
-        self.close()
+        if not self.closed:
+            self.dropped.extend(d for d, _ in self._buffer)
+            self._buffer = []
+            self.closed = True
+            self.loop.call_soon(self._call_connection_lost, None)
 
     def _call_connection_lost(self, exc: Optional[BaseException]) -> None:
         self.protocol.connection_lost(exc)
